@@ -5,7 +5,7 @@ from .base import base_registry
 A = 'Crypto.Util.asn1.'
 
 
-def registry():
+def registry(with_init=False):
     reg = base_registry()
     reg.add(ClassContract(A + 'BytesIO_EOF',
                           fields={'_buffer': 'bytes', '_index': 'nat', '_bookmark': 'nat|none'},
@@ -46,7 +46,7 @@ def registry():
     reg.add(Contract(A + 'DerObject.decode', params={'der_encoded': 'bytes', 'strict': 'bool'},
                      raises={'ValueError': ('iff', 'not ((spec.der.explicit_ok(der_encoded, self._tag_octet, self._inner_tag_octet) if hasattr(self, "_inner_tag_octet") '
                                                    'else spec.der.tlv_ok(der_encoded, self._tag_octet)) and spec.der.tlv_size(der_encoded) == len(der_encoded))')},
-                     ensures={'self': 'result is self',
+                     ensures={'self': 'result is self', 'tag': 'self._tag_octet == der_encoded[0]',
                               'payload': 'self.payload == (spec.der.tlv_content(spec.der.tlv_content(der_encoded)) if hasattr(self, "_inner_tag_octet") else spec.der.tlv_content(der_encoded))'},
                      modifies=['self.payload', 'self._tag_octet'], returns='self',
                      opaque=['spec.der.tlv_ok', 'spec.der.tlv_size', 'spec.der.tlv_content', 'spec.der.explicit_ok']))
@@ -90,6 +90,8 @@ def registry():
                      requires=['self._tag_octet is not None', 'hasattr(self, "payload")'],
                      raises={'ValueError': ('only_if', 'len(self.payload) + 16 >= 2 ** 64')},
                      ensures={'tlv': 'spec.der.tlv_ok(result, self._tag_octet) and spec.der.tlv_size(result) == len(result)',
+                              'first': 'result[0] == self._tag_octet', 'any_tag': 'spec.der.tlv_ok(result, None)',
+                              'any_tag_explicit': 'hasattr(self, "_inner_tag_octet") ==> spec.der.explicit_ok(result, None, self._inner_tag_octet)',
                               'content': 'not hasattr(self, "_inner_tag_octet") ==> spec.der.tlv_content(result) == self.payload',
                               'explicit': 'hasattr(self, "_inner_tag_octet") ==> (spec.der.explicit_ok(result, self._tag_octet, self._inner_tag_octet) and '
                                           'spec.der.tlv_content(spec.der.tlv_content(result)) == self.payload)'},
@@ -116,6 +118,8 @@ def registry():
                      ensures={'value': 'spec.der.int_value(self.payload) == self.value',
                               'minimal': 'spec.der.int_minimal(self.payload)',
                               'tlv': 'spec.der.tlv_ok(result, self._tag_octet) and spec.der.tlv_size(result) == len(result)',
+                              'first': 'result[0] == self._tag_octet', 'any_tag': 'spec.der.tlv_ok(result, None)',
+                              'any_tag_explicit': 'hasattr(self, "_inner_tag_octet") ==> spec.der.explicit_ok(result, None, self._inner_tag_octet)',
                               'content': 'not hasattr(self, "_inner_tag_octet") ==> spec.der.tlv_content(result) == self.payload',
                               'explicit': 'hasattr(self, "_inner_tag_octet") ==> (spec.der.explicit_ok(result, self._tag_octet, self._inner_tag_octet) and '
                                           'spec.der.tlv_content(spec.der.tlv_content(result)) == self.payload)'},
@@ -138,6 +142,109 @@ def registry():
                               'value': 'self.value == spec.der.int_value(self.payload)'},
                      modifies=['self.payload', 'self._tag_octet', 'self.value'], returns='self',
                      inline=[A + 'DerObject.decode'], opaque=TLV + ['spec.der.int_value']))
+    # ---------------- tags: DerObject.__init__ / _convertTag (X.690 8.1.2: class bits 7-6, constructed bit 5, low tag number < 31)
+    TAGT = 'int|bytes<1>|none'
+    tagnum = lambda e: '(%s if isinstance(%s, int) else %s[0])' % (e, e, e)
+    tag_ok = lambda e: '(0 <= %s and %s < 31)' % (tagnum(e), tagnum(e))
+    reg.add(Contract(A + 'DerObject._convertTag', params={'self': 'any', 'tag': 'int|bytes<1>'},
+                     raises={'ValueError': ('iff', 'not %s' % tag_ok('tag'))},
+                     ensures={'value': 'result == %s' % tagnum('tag')}, result='int[0..30]', modifies=[]))
+    # (registered only for its own proof unit: the other proofs of this area execute the constructors' bodies, as before)
+    (reg.add if with_init else (lambda c: None))(Contract(A + 'DerObject.__init__',
+                     params={'self': 'new:' + A + 'DerObject', 'asn1Id': TAGT, 'payload': 'bytes', 'implicit': TAGT, 'constructed': 'bool', 'explicit': TAGT},
+                     raises={'ValueError': ('iff', 'asn1Id is not None and (not %s or (implicit is not None and explicit is not None) or '
+                                                   '(implicit is not None and not %s) or (explicit is not None and not %s))'
+                                            % (tag_ok('asn1Id'), tag_ok('implicit'), tag_ok('explicit')))},
+                     ensures={'undetermined': 'asn1Id is None ==> (self._tag_octet is None and not hasattr(self, "payload") and not hasattr(self, "_inner_tag_octet"))',
+                              'payload': 'asn1Id is not None ==> self.payload == payload',
+                              'universal': '(asn1Id is not None and implicit is None and explicit is None) ==> '
+                                           '(self._tag_octet == (32 if constructed else 0) + %s and not hasattr(self, "_inner_tag_octet"))' % tagnum('asn1Id'),
+                              'implicit': '(asn1Id is not None and implicit is not None) ==> '
+                                          '(self._tag_octet == 128 + (32 if constructed else 0) + %s and not hasattr(self, "_inner_tag_octet"))' % tagnum('implicit'),
+                              'explicit': '(asn1Id is not None and explicit is not None) ==> '
+                                          '(self._tag_octet == 128 + 32 + %s and self._inner_tag_octet == (32 if constructed else 0) + %s)' % (tagnum('explicit'), tagnum('asn1Id'))},
+                     modifies=['self._tag_octet', 'self.payload', 'self._inner_tag_octet'], options={'bit_arith': True}))
+    # ---------------- DerBoolean (X.690 8.2 + 11.1: one octet, 0x00 or 0xFF)
+    reg.add(ClassContract(A + 'DerBoolean',
+                          fields={'_tag_octet': 'int[0..255]|none', 'payload?': 'bytes', '_inner_tag_octet?': 'int[0..255]', 'value?': 'bool'}))
+    reg.add(Contract(A + 'DerBoolean._decodeFromStream', params={'s': S, 'strict': 'bool'},
+                     raises={'ValueError': ('iff', 'not %s or len(%s) != 1 or (%s[0] != 0 and %s[0] != 255)'
+                                            % (ok, content % (rem, rem), content % (rem, rem), content % (rem, rem)))},
+                     ensures={'payload': 'self.payload == ' + content % (orem, orem),
+                              'value': 'self.value == (self.payload[0] == 255)',
+                              'consumed': 's._index == old(s._index) + spec.der.tlv_size(%s)' % orem, 'valid': 'valid(s)'},
+                     modifies=['s._index', 'self.payload', 'self._tag_octet', 'self.value'],
+                     opaque=TLV, options={'on_raise_modifies': ['s._index', 'self.payload', 'self._tag_octet']}))
+    reg.add(Contract(A + 'DerBoolean.encode', params={}, requires=['self._tag_octet is not None', 'hasattr(self, "value")'],
+                     raises={},
+                     ensures={'payload': 'self.payload == (bytes([255]) if self.value else bytes([0]))',
+                              'tlv': 'spec.der.tlv_ok(result, self._tag_octet) and spec.der.tlv_size(result) == len(result)',
+                              'first': 'result[0] == self._tag_octet', 'any_tag': 'spec.der.tlv_ok(result, None)',
+                              'any_tag_explicit': 'hasattr(self, "_inner_tag_octet") ==> spec.der.explicit_ok(result, None, self._inner_tag_octet)',
+                              'content': 'not hasattr(self, "_inner_tag_octet") ==> spec.der.tlv_content(result) == self.payload',
+                              'explicit': 'hasattr(self, "_inner_tag_octet") ==> (spec.der.explicit_ok(result, self._tag_octet, self._inner_tag_octet) and '
+                                          'spec.der.tlv_content(spec.der.tlv_content(result)) == self.payload)'},
+                     modifies=['self.payload'], result='bytes', opaque=TLV))
+    bok = ('(spec.der.explicit_ok(der_encoded, self._tag_octet, self._inner_tag_octet) if hasattr(self, "_inner_tag_octet") '
+           'else spec.der.tlv_ok(der_encoded, self._tag_octet))')
+    bcontent = '(spec.der.tlv_content(spec.der.tlv_content(der_encoded)) if hasattr(self, "_inner_tag_octet") else spec.der.tlv_content(der_encoded))'
+    reg.add(Contract(A + 'DerBoolean.decode', params={'der_encoded': 'bytes', 'strict': 'bool'},
+                     raises={'ValueError': ('iff', 'not (%s and spec.der.tlv_size(der_encoded) == len(der_encoded)) or len(%s) != 1 or '
+                                                   '(%s[0] != 0 and %s[0] != 255)' % (bok, bcontent, bcontent, bcontent))},
+                     ensures={'self': 'result is self', 'payload': 'self.payload == ' + bcontent, 'value': 'self.value == (self.payload[0] == 255)'},
+                     modifies=['self.payload', 'self._tag_octet', 'self.value'], returns='self',
+                     inline=[A + 'DerObject.decode'], opaque=TLV))
+    # ---------------- DerBitString (X.690 8.6: initial octet = number of unused bits, which this class requires to be 0)
+    reg.add(ClassContract(A + 'DerBitString',
+                          fields={'_tag_octet': 'int[0..255]|none', 'payload?': 'bytes', '_inner_tag_octet?': 'int[0..255]', 'value?': 'bytes'}))
+    reg.add(Contract(A + 'DerBitString._decodeFromStream', params={'s': S, 'strict': 'bool'},
+                     raises={'ValueError': ('iff', 'not %s or (len(%s) >= 1 and %s[0] != 0)' % (ok, content % (rem, rem), content % (rem, rem)))},
+                     ensures={'payload': 'self.payload == ' + content % (orem, orem), 'value': 'self.value == self.payload[1:]',
+                              'consumed': 's._index == old(s._index) + spec.der.tlv_size(%s)' % orem, 'valid': 'valid(s)'},
+                     modifies=['s._index', 'self.payload', 'self._tag_octet', 'self.value'],
+                     opaque=TLV, options={'on_raise_modifies': ['s._index', 'self.payload', 'self._tag_octet']}))
+    reg.add(Contract(A + 'DerBitString.encode', params={}, requires=['self._tag_octet is not None', 'hasattr(self, "value")'],
+                     raises={'ValueError': ('only_if', 'True')}, on_raise={'ValueError': ['len(self.payload) + 16 >= 2 ** 64']},
+                     ensures={'payload': 'self.payload == bytes([0]) + self.value',
+                              'tlv': 'spec.der.tlv_ok(result, self._tag_octet) and spec.der.tlv_size(result) == len(result)',
+                              'first': 'result[0] == self._tag_octet', 'any_tag': 'spec.der.tlv_ok(result, None)',
+                              'any_tag_explicit': 'hasattr(self, "_inner_tag_octet") ==> spec.der.explicit_ok(result, None, self._inner_tag_octet)',
+                              'content': 'not hasattr(self, "_inner_tag_octet") ==> spec.der.tlv_content(result) == self.payload',
+                              'explicit': 'hasattr(self, "_inner_tag_octet") ==> (spec.der.explicit_ok(result, self._tag_octet, self._inner_tag_octet) and '
+                                          'spec.der.tlv_content(spec.der.tlv_content(result)) == self.payload)'},
+                     modifies=['self.payload'], result='bytes', opaque=TLV, options={'on_raise_modifies': ['self.payload']}))
+    reg.add(Contract(A + 'DerBitString.decode', params={'der_encoded': 'bytes', 'strict': 'bool'},
+                     raises={'ValueError': ('iff', 'not (%s and spec.der.tlv_size(der_encoded) == len(der_encoded)) or (len(%s) >= 1 and %s[0] != 0)'
+                                            % (bok, bcontent, bcontent))},
+                     ensures={'self': 'result is self', 'payload': 'self.payload == ' + bcontent, 'value': 'self.value == self.payload[1:]'},
+                     modifies=['self.payload', 'self._tag_octet', 'self.value'], returns='self',
+                     inline=[A + 'DerObject.decode'], opaque=TLV))
+    # ---------------- round trips: client programs over the real encode / decode, verified against their CONTRACTS only
+    HN = 'spec.der_harness.'
+    same_tags = ['obj._tag_octet is not None', 'fresh._tag_octet is None or fresh._tag_octet == obj._tag_octet',
+                 'hasattr(fresh, "_inner_tag_octet") == hasattr(obj, "_inner_tag_octet")',
+                 'hasattr(obj, "_inner_tag_octet") ==> fresh._inner_tag_octet == obj._inner_tag_octet', 'fresh is not obj']
+    OBJ = lambda cls: 'obj:' + A + cls
+    reg.add(Contract(HN + 'object_roundtrip', params={'obj': OBJ('DerObject'), 'fresh': OBJ('DerObject'), 'strict': 'bool'},
+                     requires=same_tags + ['hasattr(obj, "payload")'],
+                     raises={'ValueError': ('only_if', 'len(obj.payload) + 16 >= 2 ** 64')},
+                     ensures={'payload': 'result.payload == obj.payload', 'tag': 'result._tag_octet == obj._tag_octet', 'same': 'result is fresh'},
+                     modifies=['fresh.payload', 'fresh._tag_octet'], opaque=LEN + TLV))
+    reg.add(Contract(HN + 'integer_roundtrip', params={'obj': OBJ('DerInteger'), 'fresh': OBJ('DerInteger'), 'strict': 'bool'},
+                     requires=same_tags + ['hasattr(obj, "value")'],
+                     # the decoder never refuses what the encoder produced (strict or not): only the encoder may refuse, contents of 2**64 octets
+                     raises={'ValueError': ('only_if', 'True')}, on_raise={'ValueError': ['len(obj.payload) + 16 >= 2 ** 64']},
+                     ensures={'value': 'result.value == obj.value', 'payload': 'result.payload == obj.payload'},
+                     modifies=['fresh.payload', 'fresh._tag_octet', 'fresh.value', 'obj.payload'], opaque=LEN + TLV + ['spec.der.int_value']))
+    reg.add(Contract(HN + 'boolean_roundtrip', params={'obj': OBJ('DerBoolean'), 'fresh': OBJ('DerBoolean'), 'strict': 'bool'},
+                     requires=same_tags + ['hasattr(obj, "value")'], raises={},
+                     ensures={'value': 'result.value == obj.value'},
+                     modifies=['fresh.payload', 'fresh._tag_octet', 'fresh.value', 'obj.payload'], opaque=LEN + TLV))
+    reg.add(Contract(HN + 'bitstring_roundtrip', params={'obj': OBJ('DerBitString'), 'fresh': OBJ('DerBitString'), 'strict': 'bool'},
+                     requires=same_tags + ['hasattr(obj, "value")'],
+                     raises={'ValueError': ('only_if', 'True')}, on_raise={'ValueError': ['len(obj.payload) + 16 >= 2 ** 64']},
+                     ensures={'value': 'result.value == obj.value'},
+                     modifies=['fresh.payload', 'fresh._tag_octet', 'fresh.value', 'obj.payload'], opaque=LEN + TLV))
     # ---------------- DerSequence
     reg.add(ClassContract(A + 'DerSequence',
                           fields={'_tag_octet': 'int[0..255]|none', 'payload?': 'bytes', '_inner_tag_octet?': 'int[0..255]',
@@ -175,9 +282,12 @@ def units(prop, tier):
     from vf.pyunit import pyvc_unit
     if prop != 'C13':
         return []
-    return [pyvc_unit(prop, 'asn1.' + t, registry, [A + t])
+    return [pyvc_unit(prop, 'asn1.' + t, (lambda: registry(with_init=True)) if t == 'DerObject.__init__' else registry, [A + t])
             for t in ['BytesIO_EOF.read', 'BytesIO_EOF.read_byte', 'DerObject._decodeLen', 'DerObject._decodeFromStream', 'DerObject.decode',
                       'DerInteger._decodeFromStream', 'DerObject._definite_form', 'DerObject.encode', 'DerInteger.encode', 'DerInteger.decode',
-                      'DerSequence._decodeFromStream']] + \
+                      'DerSequence._decodeFromStream', 'DerObject._convertTag', 'DerObject.__init__',
+                      'DerBoolean._decodeFromStream', 'DerBoolean.encode', 'DerBoolean.decode',
+                      'DerBitString._decodeFromStream', 'DerBitString.encode', 'DerBitString.decode']] + \
+           [pyvc_unit(prop, 'asn1.roundtrip.' + t, registry, ['spec.der_harness.' + t + '_roundtrip']) for t in ['object', 'integer', 'boolean', 'bitstring']] + \
            [pyvc_unit(prop, 'asn1.lemma.' + t, registry, ['spec.der.' + t])
             for t in ['lemma_len_prefix', 'lemma_tlv_build', 'lemma_len_trunc', 'lemma_tlv_prefix', 'lemma_shift_split', 'lemma_scale']]
